@@ -2,7 +2,9 @@
 //!
 //! Strings cross the boundary hex-encoded (`.` = empty).  Arrays `shape:e,e,…`.
 //! Exhaustive small scope over the alphabet {a,b,A,B,0,1,' ','-',',','\n','\r'}, packed into arrays of rank 1..3,
-//! then a seeded random stream (strings up to 24 bytes, patterns cut out of the subject), then malformed calls.
+//! then a seeded random stream (strings up to 24 bytes, patterns cut out of the subject), then malformed calls,
+//! then the robustness streams of FRAMEWORK.md (`robust`): sizes, zero-length axes, long strings / large widths, argument-shape
+//! combinations in every argument position.  `exec` runs EVERY case on both receivers (`Array<String>` and `Result<Array<String>, _>`).
 use arrharness::*;
 
 /// Unequal-but-broadcastable argument shapes (rank >= 2 against `[1]`, `[2,3]` against `[3]`, `[2,1]` against `[1,3]`, …).
@@ -688,5 +690,5 @@ fn nontrivial(_op: &str, args: &[&str]) -> bool {
 
 fn main() {
     harness_main(Spec { prop: "C17", gen, exec, nontrivial, hang_secs: 5,
-        rule: "exhaustive over the alphabet {a,b,A,B,0,1,space,-,comma,LF,CR}: one-argument operations on every string of length <=4 (quick <=3); two-argument operations on every (subject<=3 (quick <=2), pattern<=2) pair, split/rsplit limits 0..4; padding widths 0..6; replace on every (subject<=4 (quick <=3), old<=2, new<=2, count) over {a,b,-}; all packed into equal-shape arrays of rank 1..3 plus [1]-shaped scalar-like arguments; + seeded random strings up to 24 bytes with patterns cut from the subject; + non-broadcastable shapes. distinct = distinct case lines; non-trivial = subject array with >=2 distinct strings" });
+        rule: "exhaustive over the alphabet {a,b,A,B,0,1,space,-,comma,LF,CR}: one-argument operations on every string of length <=4 (quick <=3); two-argument operations on every (subject<=3 (quick <=2), pattern<=2) pair, split/rsplit limits 0..4; padding widths 0..6; replace on every (subject<=4 (quick <=3), old<=2, new<=2, count) over {a,b,-}; all packed into equal-shape arrays of rank 1..3 plus [1]-shaped scalar-like arguments; + seeded random strings up to 24 bytes with patterns cut from the subject; + non-broadcastable shapes; + robustness streams: both receivers (Array<String>, Ok(array) and Err(..) through the Result impls) on EVERY case, compare with &str/String/enum spellings, every operation on big_shapes() (axes 7..17, up to 4900 elements) and zero_shapes() with same-shape/[1]/trailing/unit-axis partners, long strings 257..301 bytes with self-overlapping patterns and widths/counts 255..1000, every pair/triple of argument shapes needing two-sided stretches in every argument position. distinct = distinct case lines; non-trivial = subject array with >=2 distinct strings" });
 }
